@@ -231,11 +231,11 @@ def main():
         verified_somewhere.update(u.verified_contracts)
     dangling = []
     degraded = []
+    deg_all = {d['contract'] for un, (u, runs, wall) in results.items() for d in u.degraded}
     for un, (u, runs, wall) in results.items():
-        deg = {d['contract'] for d in u.degraded}
         degraded += [f'{un}:{d["contract"]} ({d["reason"]})' for d in u.degraded]
         for a in u.assumed_contracts:
-            if a not in verified_somewhere and a not in deg:
+            if a not in verified_somewhere and a not in deg_all:
                 dangling.append(f'{un}:{a}')
     if dangling:
         undecided(f'assumed contracts not proved in the cone: {dangling}')
